@@ -2,6 +2,7 @@ import Driver.J
 import CanVerif.Model.DbcText
 import CanVerif.Spec.DbcRT
 import CanVerif.Model.DbcStart
+import CanVerif.Model.DbcStmt
 open Lean CanVerif CanVerif.Dbc
 
 namespace D05
@@ -115,6 +116,40 @@ def handle (op : String) (c i : Json) : Except String (Json × String) := do
       else match valOf p with
         | .ok q => if q == v then "ok" else "fail: the VAL_ line reads back as a different value table"
         | .error e => "fail: " ++ e
+    pure (m, verdict)
+  | "tx" =>
+    -- c = {"tx": {"id", "ecus"}}; i = {"line": BO_TX_BU_ line of the file, "parsed": {"id", "ecus": senders of a frame without other senders after the line}}
+    let t : TxLine := { id := ← J.nat (← J.key (← J.key c "tx") "id"), ecus := (← J.strList (← J.key (← J.key c "tx") "ecus")).map String.toList }
+    let line ← J.str (← J.key i "line")
+    let txJ (q : TxLine) : Json := J.obj [("id", J.ofNat q.id), ("ecus", J.ofStrList ((addTransmitters [] q.ecus).map String.ofList))]
+    let m := J.obj [("line", .str (String.ofList (renderTx t))), ("parsed", optJ txJ (parseTx (stripWs line.toList)))]
+    let p := ← J.key i "parsed"
+    let verdict := if J.isNull p then "fail: the reader did not accept the BO_TX_BU_ line the writer produced"
+      else if p == txJ t then "ok" else "fail: the BO_TX_BU_ line reads back as other senders"
+    pure (m, verdict)
+  | "vt" =>
+    -- c = {"vt": {"id", "name", "double"}}; i = {"line", "parsed": {"id", "name", "float": is_float of that signal after the line}}
+    let v : ValTypeLine := { id := ← J.nat (← J.key (← J.key c "vt") "id"), name := (← J.str (← J.key (← J.key c "vt") "name")).toList,
+                             double := ← J.bool (← J.key (← J.key c "vt") "double") }
+    let line ← J.str (← J.key i "line")
+    let vtJ (q : Nat × Str) : Json := J.obj [("id", J.ofNat q.1), ("name", .str (String.ofList q.2)), ("float", .bool true)]
+    let m := J.obj [("line", .str (String.ofList (renderValType v))), ("parsed", optJ vtJ (parseValType (stripWs line.toList)))]
+    let p := ← J.key i "parsed"
+    let verdict := if J.isNull p then "fail: the reader did not accept the SIG_VALTYPE_ line the writer produced"
+      else if p == vtJ (v.id, v.name) then "ok" else "fail: the SIG_VALTYPE_ line does not make that signal a float"
+    pure (m, verdict)
+  | "mul" =>
+    -- c = {"mul": {"id", "sig", "muxer", "ranges"}}; i = {"line", "parsed": the same fields as the reader stored them}
+    let mj ← J.key c "mul"
+    let rs ← (← J.arr (← J.key mj "ranges")).mapM fun r => do pure ((← J.nat (← J.idx r 0)), (← J.nat (← J.idx r 1)))
+    let ml : MulLine := { id := ← J.nat (← J.key mj "id"), sig := (← J.str (← J.key mj "sig")).toList, muxer := (← J.str (← J.key mj "muxer")).toList, ranges := rs }
+    let line ← J.str (← J.key i "line")
+    let mulJ (q : MulLine) : Json := J.obj [("id", J.ofNat q.id), ("sig", .str (String.ofList q.sig)), ("muxer", .str (String.ofList q.muxer)),
+                                            ("ranges", J.ofList (q.ranges.map fun (a, b) => J.ofList [J.ofNat a, J.ofNat b]))]
+    let m := J.obj [("line", .str (String.ofList (renderMul ml))), ("parsed", optJ mulJ (parseMul (stripWs line.toList)))]
+    let p := ← J.key i "parsed"
+    let verdict := if J.isNull p then "fail: the reader did not accept the SG_MUL_VAL_ line the writer produced"
+      else if p == mulJ ml then "ok" else "fail: the SG_MUL_VAL_ line reads back as another binding"
     pure (m, verdict)
   | "file" =>
     let bs ← (← J.arr (← J.key c "blocks")).mapM blockOf
